@@ -464,6 +464,16 @@ def run_impl(cases):
         raise _Alarm()
 
     signal.signal(signal.SIGALRM, on_alarm)
+    signal.signal(signal.SIGPROF, on_alarm)
+
+    def arm(sec):  # CPU time of this process (machine load cannot trip it) with a distant wall-clock backstop
+        signal.setitimer(signal.ITIMER_PROF, float(sec))
+        signal.alarm(sec * 40)
+
+    def disarm():
+        signal.setitimer(signal.ITIMER_PROF, 0)
+        signal.alarm(0)
+
     base = os.path.join(os.environ["VERIF_SCRATCH"], "c13_%d" % os.getpid())
     out = []
     for idx, c in enumerate(cases):
@@ -493,19 +503,19 @@ def run_impl(cases):
             out.append({"skip": type(ex).__name__})
             continue
         real_root = os.path.realpath(root)
-        signal.alarm(5)
+        arm(5)
         try:
             if c.get("api") == "files" and (c.get("files") or c.get("bytes")):
                 paths = sorted(os.path.join(ns, name) for name in list(c.get("files", {})) + list(c.get("bytes", {})))
                 pydsdl.read_files(paths, [ns], print_output_handler=lambda p, l, t: None)
             else:
                 pydsdl.read_namespace(ns, [], print_output_handler=lambda p, l, t: None)
-            signal.alarm(0)
+            disarm()
             out.append({"out": "model"})
         except _Alarm:
             out.append({"timeout": True})
         except pydsdl.InvalidDefinitionError as ex:
-            signal.alarm(0)
+            disarm()
             o = {"out": "CInvalidDefinition"}
             p = ex.path
             if p is None:
@@ -516,7 +526,7 @@ def run_impl(cases):
                     o["pred_fail"] = "%s with a path outside the namespace" % type(ex).__name__
             out.append(o)
         except BaseException as ex:  # pylint: disable=broad-except
-            signal.alarm(0)
+            disarm()
             cls = V.classify(ex) if isinstance(ex, Exception) else "COther"
             culprit = "" if isinstance(ex, pydsdl.Error) else type(ex).__name__
             if isinstance(ex, pydsdl.InternalError):
@@ -526,7 +536,7 @@ def run_impl(cases):
             if isinstance(ex, pydsdl.InternalError) and "integer string conversion" in str(ex):
                 o["hint"] = "int-max-str-digits"  # only used to classify the open finding F21, never for a verdict
             out.append(o)
-    signal.alarm(0)
+    disarm()
     shutil.rmtree(base, ignore_errors=True)
     return out
 
